@@ -208,7 +208,10 @@ def run_tlc(
             cfgp.write_text(cfg_text)
         else:
             cfgp = sd / (cfg or f"{module}.cfg")
-        jopts = [f"-Xmx{heap}", "-XX:+UseParallelGC"]
+        # TLC unpacks its standard modules into java.io.tmpdir: keep that inside the per-run directory
+        jtmp = Path(tmp) / "jtmp"
+        jtmp.mkdir(exist_ok=True)
+        jopts = [f"-Xmx{heap}", "-XX:+UseParallelGC", f"-Djava.io.tmpdir={jtmp}"]
         if dfs_queue:
             jopts.append("-Dtlc2.tool.queue.IStateQueue=StateDeque")
         cmd = ["java", *jopts, "-cp", JAR, "tlc2.TLC", "-metadir", str(Path(tmp) / "meta"),
